@@ -1,6 +1,9 @@
 import Nsq.Proofs.AdminGate
 import Nsq.Proofs.AdminFanout
 import Nsq.Tie.AdminGate
+import Nsq.Proofs.AdminProg
+import Nsq.Tie.AdminProg
+import Nsq.Tie.AdminNotify
 /-!
 # C17 — nsqadmin state-changing actions require an admin identity
 
@@ -176,5 +179,198 @@ theorem admin_fanout_requests (w : Nsq.Model.AdminFanout.World) (act : Nsq.Model
     (∀ c ∈ Nsq.Model.AdminFanout.lookupdCommands w act, ∀ l ∈ w.lookupds,
         Nsq.Model.AdminFanout.Req.post l.addr c ∈ Nsq.Model.AdminFanout.requests w act) :=
   ⟨fun p hp => producers_posted w act p hp, fun c hc l hl => lookupds_posted w act c hc l hl⟩
+
+/-! ## The `ClusterInfo` actions as programs (model `Nsq.Model.AdminProg`, translated from data.go:
+`Nsq.Tie.AdminProg` proves regenerated program = `progOf kind` for all ten methods) -/
+
+section Programs
+open Nsq.Model.AdminFanout Nsq.Model.AdminProg Nsq.Proofs.AdminProg
+
+/-- **fanout_errors_never_dropped.** For *every* program whose steps all use the aggregate policy and that
+ends in `return ErrList(errs)`: unless a non-partial error is returned, the returned list holds exactly one
+error per failed request of the run; so a `nil` result means every request that was sent succeeded.
+Every translated method has this form (`progs_aggregate`). -/
+theorem fanout_errors_never_dropped (w : World) (a : Action) (p : Prog) (hp : allAggregate p = true) :
+    ((run w a p).aborted = false → (run w a p).errs = failCount w (run w a p).reqs) ∧
+    ((resultOf p (run w a p)).1 = .none → ∀ r ∈ (run w a p).reqs, fails w r = false) ∧
+    ((resultOf p (run w a p)).1 = .partialErr →
+        (resultOf p (run w a p)).2 = failCount w (run w a p).reqs ∧ 0 < failCount w (run w a p).reqs) := by
+  have hacc := run_accounted w a p hp
+  have hend : p.ending = .errList := by
+    simp only [allAggregate, Bool.and_eq_true, beq_iff_eq] at hp; exact hp.2
+  refine ⟨hacc, ?_, ?_⟩
+  · intro hres
+    unfold resultOf at hres
+    by_cases hab : (run w a p).aborted = true
+    · simp [hab] at hres
+    · simp only [Bool.not_eq_true] at hab
+      by_cases he : (run w a p).errs > 0
+      · simp [hab, hend, he] at hres
+      · have h0 : (run w a p).errs = 0 := by omega
+        exact failCount_zero w _ (by rw [← hacc hab]; exact h0)
+  · intro hres
+    unfold resultOf at hres ⊢
+    by_cases hab : (run w a p).aborted = true
+    · simp [hab] at hres
+    · simp only [Bool.not_eq_true] at hab
+      by_cases he : (run w a p).errs > 0
+      · simp only [hab, hend, he, Bool.false_eq_true, ↓reduceIte, beq_self_eq_true, decide_true, Bool.and_self]
+        rw [← hacc hab]; exact ⟨rfl, he⟩
+      · simp [hab, hend, he] at hres
+
+theorem progs_aggregate (k : Kind) : allAggregate (progOf k) = true := by cases k <;> decide
+
+/-- Non-vacuity, and what the clause excludes: the same delete with the error of the nsqlookupd step
+*ignored* answers `nil` although nsqlookupd L0 refused the command; the real program reports one error. -/
+def sampleWorld : World :=
+  { lookupds := [{ addr := "L0", up := true, producers := ["N0"], postUp := false },
+                 { addr := "L1", up := true, producers := ["N0", "N1"] }],
+    nsqdAddrs := [],
+    nsqds := [{ addr := "N0", up := true, hasTopic := true }, { addr := "N1", up := true, hasTopic := true }] }
+
+def sampleDelete : Action := { kind := .deleteTopic, topic := "t" }
+
+example : resultOf (progOf .deleteTopic) (runAction sampleWorld sampleDelete) = (.partialErr, 1) := by decide
+example : (runAction sampleWorld sampleDelete).reqs.map renderReq =
+    ["G:L0/lookup?topic=t", "G:L1/lookup?topic=t", "P:L0/topic/delete?topic=t", "P:L1/topic/delete?topic=t",
+     "P:N0/topic/delete?topic=t", "P:N1/topic/delete?topic=t"] := by decide
+
+theorem fanout_error_dropped_without_aggregate :
+    ∃ (w : World) (a : Action) (p : Prog),
+      (resultOf p (run w a p)).1 = .none ∧ ∃ r ∈ (run w a p).reqs, fails w r = true :=
+  ⟨sampleWorld, sampleDelete,
+    ⟨[agg (.lookup .topicProducers), ⟨.always, .lookupdPost "topic/delete" .topic, .ignore⟩,
+      agg (.producersPost "topic/delete" .topic)], .errList⟩,
+    by decide, ⟨true, .lookupd, "L0", "/topic/delete", "topic=t"⟩, by decide, by decide⟩
+
+/-- **fanout_exactly_once.** An action that is carried out (no non-partial error): for each command the
+action has for the nsqlookupds, the addresses that receive it are exactly the configured nsqlookupds (in
+order, as often as configured); the addresses that receive the nsqd command are exactly the producers found
+by the lookup. With pairwise distinct nsqlookupd addresses every nsqlookupd is POSTed each command exactly
+once, and every producer found through nsqlookupd (one entry per address reported by a responding
+nsqlookupd: `fanout_producers`) exactly once. -/
+theorem fanout_exactly_once (w : World) (a : Action) (hwf : Action.wf a)
+    (hab : (runAction w a).aborted = false) :
+    (∀ c ∈ lookupdCmds a,
+        postsTo (runAction w a) .lookupd (pathOf c.1) (qsOf a c.2) = w.lookupds.map (·.addr)) ∧
+    (∀ c, nsqdCmd a.kind = some c →
+        postsTo (runAction w a) .nsqd (pathOf c.1) (qsOf a c.2) = (runAction w a).producers) ∧
+    ((w.lookupds.map (·.addr)).Nodup → ∀ c ∈ lookupdCmds a, ∀ l ∈ w.lookupds,
+        (postsTo (runAction w a) .lookupd (pathOf c.1) (qsOf a c.2)).count l.addr = 1) ∧
+    ((runAction w a).producers.Nodup → ∀ c, nsqdCmd a.kind = some c → ∀ p ∈ (runAction w a).producers,
+        (postsTo (runAction w a) .nsqd (pathOf c.1) (qsOf a c.2)).count p = 1) := by
+  refine ⟨lookupds_exactly_once w a hwf hab, fun c hc => nsqds_exactly_once w a hwf hab c hc, ?_, ?_⟩
+  · intro hnd c hc l hl
+    rw [lookupds_exactly_once w a hwf hab c hc]
+    exact count_one_of_nodup _ _ hnd (List.mem_map.2 ⟨l, hl, rfl⟩)
+  · intro hnd c hc p hp
+    rw [nsqds_exactly_once w a hwf hab c hc]
+    exact count_one_of_nodup _ _ hnd hp
+
+example : Action.wf sampleDelete := by simp [Action.wf, sampleDelete]
+example : (runAction sampleWorld sampleDelete).aborted = false ∧
+    lookupdCmds sampleDelete = [("topic/delete", .topic)] ∧
+    (runAction sampleWorld sampleDelete).producers = ["N0", "N1"] := by decide
+
+/-- **fanout_producers.** Who the relevant nsqds are: the producer list after a successful lookup is the
+lookup's answer; through nsqlookupd it has no duplicates and contains exactly the addresses that some
+responding nsqlookupd reports; in direct mode it is the configured nsqds that answer and list the topic.
+`GetTopicProducers` asks the nsqlookupds iff one is configured (`Tie.getTopicProducers_fallback`). -/
+theorem fanout_producers (w : World) (a : Action) (hwf : Action.wf a)
+    (hab : (runAction w a).aborted = false) (l : Lookup) (hl : lookupOf a.kind = some l) :
+    (runAction w a).producers = (doLookup w a l).producers ∧
+    ((lookupdTopicProducers w a).producers.Nodup ∧
+      ∀ p, p ∈ (lookupdTopicProducers w a).producers ↔
+        ∃ lk ∈ w.lookupds, getOk w lk.addr = true ∧ p ∈ lk.producers) ∧
+    (nsqdTopicProducers w a).producers = w.nsqdAddrs.filter (nodeHasTopic w) ∧
+    doLookup w a .topicProducers =
+      (if !w.lookupds.isEmpty then lookupdTopicProducers w a else nsqdTopicProducers w a) :=
+  ⟨(producers_of_run w a hwf hab l hl).1, lookupd_producers w a, rfl, rfl⟩
+
+example : lookupOf sampleDelete.kind = some .topicProducers := by decide
+
+/-- **fanout_lookup_first.** Delete / pause / unpause / empty ask for the producers *before* they change
+anything ("for topic removal, you need to get all the producers first"): every GET of the run precedes every
+POST; and when that lookup fails as a whole, no POST is sent at all. -/
+theorem fanout_lookup_first (w : World) (a : Action)
+    (hk : a.kind ≠ .createTopic ∧ a.kind ≠ .createChannel ∧ a.kind ≠ .tombstone) :
+    getsFirst (runAction w a).reqs ∧
+    ((runAction w a).aborted = true → ∀ r ∈ (runAction w a).reqs, r.post = false) :=
+  ⟨lookup_before_posts w a hk, aborted_no_post w a hk⟩
+
+example : sampleDelete.kind ≠ .createTopic ∧ sampleDelete.kind ≠ .createChannel ∧
+    sampleDelete.kind ≠ .tombstone := by decide
+
+end Programs
+
+/-! ## Notifications (`notifyAdminAction`) -/
+
+section Notify
+open Nsq.Proofs.AdminNotify Nsq.Tie.AdminNotify
+
+/-- **notify_exact.** For every mutating route, every request and every upstream behaviour:
+(i) without an admin identity, or without a configured `--notification-http-endpoint`, nothing is notified;
+(ii) with an endpoint, the notifications of a run are exactly those of the `ClusterInfo` actions it performed
+— one per action, named after it (`create_topic` plus `create_channel` when the body names a channel) — when
+the handler announces (answer 200; pause / unpause / empty also on 502, they notify before looking at the
+error), and none otherwise (400 / 403 / 502 of create, delete, tombstone). With `admin_fanout` (exactly one
+action on 200/502, none otherwise): exactly one notification per performed action, never one without. -/
+theorem notify_exact (r : Route) (hr : r ∈ adminRoutes) (hm : r.mutating = true) :
+    ∃ sk, skelOf r = some sk ∧ ∀ env : Env,
+      (isAdmin env.conf env.req = false → notifyObs (run env sk).2 = []) ∧
+      (env.conf.notifyOn = false → notifyObs (run env sk).2 = []) ∧
+      (env.conf.notifyOn = true →
+        notifyObs (run env sk).2 =
+          notesFor r.handler (upstreamObs (run env sk).2) (env.req.nonEmptyBody.contains "Channel")
+            (run env sk).1) := by
+  have h := mutating_routes_notify
+  simp only [List.all_eq_true, List.mem_filter] at h
+  have h' := h r ⟨hr, hm⟩
+  obtain ⟨sk0, hsk0, hguard⟩ := mutating_guarded r hr hm
+  cases hs : skelOf r with
+  | none => simp [hs] at h'
+  | some sk =>
+    simp only [hs, Bool.and_eq_true] at h'
+    rw [hs] at hsk0
+    have hsame : sk = sk0 := Option.some.inj hsk0
+    subst hsame
+    refine ⟨sk, rfl, fun env => ⟨?_, ?_, ?_⟩⟩
+    · intro hna; rw [hguard env hna]; rfl
+    · intro hoff
+      have := notifyGated_runSt env hoff sk {} h'.2
+      simpa [run, notifyObs] using this
+    · intro hon; exact notify_lift r.handler sk h'.1 env hon
+
+/-- Routes that do not change state never notify (all paths of their regenerated skeletons). -/
+theorem notify_only_mutating (r : Route) (hr : r ∈ adminRoutes) (hm : r.mutating = false) :
+    ∃ sk, skelOf r = some sk ∧ ∀ p ∈ paths sk, notesOf p.2.1 = [] := by
+  have h := other_routes_silent
+  simp only [List.all_eq_true, List.mem_filter] at h
+  have h' := h r ⟨hr, by simp [hm]⟩
+  cases hs : skelOf r with
+  | none => simp [hs] at h'
+  | some sk =>
+    simp only [hs, List.all_eq_true, beq_iff_eq] at h'
+    exact ⟨sk, rfl, h'⟩
+
+/-- Non-vacuity: an admin pausing a channel with an endpoint configured notifies `pause_channel` once; the
+same request from somebody else notifies nothing; creating topic + channel notifies both. -/
+def notifyEnv (users : List String) (hdrs : List (String × String)) (action : String) (body : List String) : Env :=
+  { sampleEnv users hdrs with
+    conf := { adminUsers := users, aclHeader := "X-Forwarded-User", cidrSet := false, lookupdMode := true, notifyOn := true },
+    req := { method := "POST", headers := hdrs, action := action, opt := "",
+             nonEmptyParams := ["topic", "channel"], nonEmptyBody := body } }
+
+example : run (notifyEnv ["alice"] [("X-Forwarded-User", "alice")] "pause" []) adminSkel_channelActionHandler
+    = (200, [.bodyRead, .upstream "PauseChannel", .notify "pause_channel"]) := by decide
+example : run (notifyEnv ["alice"] [("X-Forwarded-User", "bob")] "pause" []) adminSkel_channelActionHandler
+    = (403, []) := by decide
+example : notifyObs (run (notifyEnv [] [] "" ["Topic", "Channel"]) adminSkel_createTopicChannelHandler).2
+    = ["create_topic", "create_channel"] := by decide
+example : notesFor "createTopicChannelHandler" ["CreateTopicChannel"] true 200 = ["create_topic", "create_channel"] ∧
+    notesFor "deleteTopicHandler" ["DeleteTopic"] false 502 = [] ∧
+    notesFor "topicActionHandler" ["EmptyTopic"] false 502 = ["empty_topic"] := by decide
+
+end Notify
 
 end Nsq.Props.C17
